@@ -3,6 +3,7 @@ DMRS-PENMAN serialization and deserialization.
 """
 
 import logging
+import re
 from pathlib import Path
 
 import penman
@@ -179,7 +180,8 @@ def to_triples(d, properties=True, lnk=True):
             if lnk and node.lnk:
                 triples.append((_id, ':lnk', '"{}"'.format(str(node.lnk))))
             if node.carg is not None:
-                triples.append((_id, ':carg', '"{}"'.format(node.carg)))
+                triples.append(
+                    (_id, ':carg', '"{}"'.format(_escape(node.carg))))
             if node.type:
                 triples.append((_id, ':' + CVARSORT, node.type))
             if properties:
@@ -202,6 +204,14 @@ def to_triples(d, properties=True, lnk=True):
         logger.warning(
             'disconnected graph cannot be completely encoded: %r', d)
     return triples
+
+
+def _escape(s):
+    return s.replace('\\', '\\\\').replace('"', '\\"')
+
+
+def _unescape(s):
+    return re.sub(r'\\(.)', r'\1', s)
 
 
 def from_triples(triples):
@@ -229,7 +239,7 @@ def from_triples(triples):
             nd[src]['lnk'] = Lnk.charspan(int(cfrom), int(cto))
         elif rel == 'carg':
             if (tgt[0], tgt[-1]) == ('"', '"'):
-                tgt = tgt[1:-1]
+                tgt = _unescape(tgt[1:-1])
             nd[src]['carg'] = tgt
         elif rel == CVARSORT:
             nd[src]['type'] = tgt
